@@ -40,6 +40,25 @@ SubPick(sw, isconst, n, V, F, L) ==
 SubBits(kind, C, V, F, L) ==
   CASE kind = "constant" -> C [] kind = "verbatim" -> V [] kind = "fixed" -> F [] kind = "lpc" -> L
 
+\* ------------------------------------------------------------------ fixed predictor order (OrderSel::BitCount)
+\* cost[o] = coded size with order o (o \in 0..4); with maximum order j the FIRST minimum over 0..j is taken
+\* and kept iff it is below the verbatim size V.  Result: [kind, order, bits].
+FixedArgMin(cost, j) == CHOOSE o \in 0..j : (\A p \in 0..j : cost[o] <= cost[p]) /\ (\A p \in 0..(o - 1) : cost[p] > cost[o])
+FixedPick(cost, j, V) ==
+  LET o == FixedArgMin(cost, j)
+  IN IF cost[o] < V THEN [kind |-> "fixed", order |-> o, bits |-> cost[o]] ELSE [kind |-> "verbatim", order |-> 0, bits |-> V]
+\* what can be said about the results r[0..4] for maximum orders 0..4 WITHOUT knowing the costs of the orders
+\* that were never chosen (the ladder law): orders never exceed the maximum, sizes never grow, a result only
+\* changes by moving to the newly admitted order with a STRICTLY smaller size
+LadderOk(r, V) ==
+  /\ \A j \in 0..4 : r[j].kind = "fixed" => (r[j].order <= j /\ r[j].bits < V)
+  /\ \A j \in 0..4 : r[j].kind = "verbatim" => r[j].bits = V
+  /\ \A j \in 0..3 :
+       IF r[j].kind = "fixed"
+       THEN r[j + 1].kind = "fixed" /\
+            (r[j + 1] = r[j] \/ (r[j + 1].order = j + 1 /\ r[j + 1].bits < r[j].bits))
+       ELSE r[j + 1].kind = "verbatim" \/ r[j + 1].order = j + 1
+
 \* ------------------------------------------------------------------ stereo
 \* en = [ls, rs, ms]; l, r, m, s: subframe sizes of left, right, mid, side
 StereoStep(cur, on, ch, bits) == IF on /\ bits < cur.bits THEN [ch |-> ch, bits |-> bits] ELSE cur
@@ -101,6 +120,10 @@ SubMonotone ==
     ((s1.f => s2.f) /\ (s1.l => s2.l)) =>
       LET V == sizes.a + 1 IN
       SubBits(SubPick(s2, FALSE, n, V, F, L), 0, V, F, L) <= SubBits(SubPick(s1, FALSE, n, V, F, L), 0, V, F, L)
+\* the ladder law holds for every cost assignment (costs 0..MaxBits + 1, V from sizes.a + 1)
+LadderSound ==
+  \A cost \in [0..4 -> {sizes.a, sizes.b, sizes.c, sizes.d, sizes.a + sizes.b}] :
+    LadderOk([j \in 0..4 |-> FixedPick(cost, j, sizes.c + 1)], sizes.c + 1)
 ConstantRule ==
   \A sw \in Sw, F \in Cands(sizes.b), L \in Cands(sizes.c) :
     (SubPick(sw, TRUE, MinPredict, sizes.a + 1, F, L) = "constant") <=> sw.c
